@@ -11,6 +11,11 @@ TEXT = {
         "note": "Trusted: Lean kernel, hook + harness, Node 20. Scope analysis, slot assignment and the non-minifying renamer are exercised, not modelled.",
         "technique": "Lean 4 proof on hand-written model + differential correspondence; Node run-time search; text search",
     },
+    "C17": {
+        "level": "Lean theorems over a model of a build context's file-system effects, for every table, request and history: failed, cancelled and non-writing builds write nothing; no written path is an input unless overwriting was allowed; never two contents for one path; writes are reported outputs; deletions are stale outputs of the same context (also as an invariant over whole rebuild histories). Tied by correspondence: real contexts on real directories, tree snapshots before/after every Rebuild vs the model's predicted deletions/writes/next table. Path identity and output placement are a search on real directories with symlinks, coinciding outdir/outbase, hash-less templates, assets, plugins. One defect found and fixed (symlinked outdir), one known finding (on-end errors come after the write).",
+        "note": "Trusted: Lean kernel, harness snapshots (mtime granularity), Linux file system semantics. Windows path canonicalisation and the serve/watch paths are not covered.",
+        "technique": "Lean 4 proof on hand-written model + differential correspondence on operation histories; file-system invariant search",
+    },
     "C18": {
         "level": "Lean theorems (all inputs) that the length-prefixed hash pre-image encoding is injective and that piece splitting partitions the output; model tied to the linker by a correspondence run through verif-tagged exports. Whole-build oracles (same name => same bytes over single-point edits, reference integrity, no placeholder) are a search, not a proof; name_determines_bytes is a recorded known finding.",
         "note": "Trusted: Lean kernel, correspondence harness, xxhash collision freedom. Modelled not verified: Go code of the linker; only the pre-image encoding and piece splitting are modelled.",
